@@ -826,6 +826,22 @@ func corpus() []desc {
 	small := directed("GET /a HTTP/1.1\r\nHost: h\r\nX-Pad: "+strings.Repeat("p", 80)+"\r\n\r\n"+get("/b"), "smallbuf")
 	small.BSize = 64
 	l = append(l, small)
+	trsmall := directed("POST /a HTTP/1.1\r\nHost: h\r\nTransfer-Encoding: chunked\r\n\r\n3\r\nabc\r\n0\r\nX-T: "+strings.Repeat("t", 90)+"\r\n\r\n"+get("/b"), "trailer-smallbuf")
+	trsmall.BSize = 64
+	l = append(l, trsmall)
+	chbig := directed("POST /a HTTP/1.1\r\nHost: h\r\nTransfer-Encoding: chunked\r\n\r\nA\r\n0123456789\r\nA\r\n0123456789\r\nA\r\n0123456789\r\n0\r\n\r\n"+get("/b"), "chunked-maxbody")
+	chbig.MaxBody = 20
+	l = append(l, chbig)
+	l = append(l,
+		directed("POST /a HTTP/1.1\r\nHost: h\r\nContent-Type: multipart/form-data; boundary=xx\r\nContent-Encoding: gzip\r\nContent-Length: 12\r\n\r\nnot-a-form!!"+get("/b"), "multipart-content-encoding"),
+		directed("POST /a HTTP/1.1\r\nHost: h\r\nContent-Type: multipart/form-data; boundary=xx\r\ncontent-encoding: gzip\r\nContent-Length: 12\r\n\r\nnot-a-form!!"+get("/b"), "multipart-content-encoding-lower"),
+		directed("POST /a HTTP/1.1\r\nHost: h\r\nContent-Type: multipart/form-data; boundary=xx\r\nContent-Length: 12\r\n\r\nnot-a-form!!"+get("/b"), "multipart-garbage"),
+		directed("POST /a HTTP/1.1\r\nHost: h\r\nContent-Type: multipart/form-data; boundary=xx\r\nContent-Length: 60\r\n\r\n--xx\r\nContent-Disposition: form-data; name=\"a\"\r\n\r\nv\r\n--xx--\r\n", "multipart-short"),
+		directed("POST /a HTTP/1.1\r\nHost: h\r\nContent-Length: 5\r\n\r\nab", "fixed-short"),
+		directed("\r\n\r\n", "only-crlf"),
+		directed("", "empty"),
+		directed("GET /a HTTP/1.1\r\nHost: h\r\n\r\n\r\n\r\n", "trailing-crlf"),
+	)
 	small2 := directed(get("/a")+get("/b")+"POST /c HTTP/1.1\r\nHost: h\r\nContent-Length: 70\r\n\r\n"+strings.Repeat("c", 70)+get("/d"), "smallbuf-ok")
 	small2.BSize = 64
 	l = append(l, small2)
